@@ -1,7 +1,534 @@
-import ArchSim.Model.Asm
+/-
+C05 — RISC-V assembler, data segment and the constant / address pseudo-instructions.
+
+Property theorems only (plus non-vacuity examples); helper lemmas live in `ArchSim/Lemmas/C05*.lean`.
+
+Vocabulary (from the lemma files):
+* `runSeq is s` executes the instruction objects `is` one after the other with `Rv.behavior` from state
+  `s`, stopping at the first fault; the pc is not advanced (that is the stage's `+4`, and `behavior` of
+  the instructions below never touches the pc).
+* `luiAddi rd a = [lui rd, hi ; addi rd, rd, lo]` with `(hi, lo) = hiLo a`, immediates passed through
+  the constructors' sign extension (`mkInstr` / `storedImm`).
+* `liInstrs rd c` = `[addi rd, x0, c]` when `-2048 ≤ c ≤ 2047`, else `luiAddi rd c`.
+* for a data segment `es` (`itemsOf es` its items):  `addrOf items 16384 k` the address `a_k` of
+  declaration `k`, `declLen` the number of bytes a declaration occupies, `declSize` its element size,
+  `layoutVars`/`layoutEnd` the specified variable table / final counter, `DataOk es` the hypotheses
+  (every entry a declaration without in-line label, names pairwise distinct, the segment ends below
+  2^32), `dataInit` the state `load` starts the data pass in (empty flat memory, counter 16384).
+-/
+import ArchSim.Lemmas.C05Groups
+import ArchSim.Lemmas.C05Read
+import ArchSim.Lemmas.C05Seg
+import ArchSim.Lemmas.C05Load
+import ArchSim.Lemmas.C05Err
+import ArchSim.Lemmas.C05Renum
+
 namespace ArchSim.Props.C05
-open ArchSim.Asm
-/-- Alignment never moves an address down and lands on a multiple of 4. -/
-theorem align4_spec (a : Int) : a ≤ align4 a ∧ align4 a < a + 4 ∧ align4 a % 4 = 0 := by
-  simp only [align4]; split <;> omega
+open ArchSim ArchSim.Asm ArchSim.Rv ArchSim.Lemmas.C05
+
+/-! ## 1  `li rd, c` leaves exactly `c mod 2^32` in `rd`, for every constant -/
+
+/-- `wrapU c` is `c mod 2^32` as a natural number. -/
+theorem wrapU_spec (c : Int) : ((wrapU c : Nat) : Int) = c % 4294967296 ∧ wrapU c < 4294967296 := by
+  simp only [wrapU]; omega
+
+/-- The arithmetic core of `li`/`la`: for EVERY integer `c`, the sign-extended 20-bit high part times 4096
+    plus the sign-extended 12-bit low part of `hiLo c` is `c` modulo 2^32 (the high part can be 2^20,
+    which the `lui` constructor wraps to 0). -/
+theorem hiLo_recombines (c : Int) :
+    (sextImm 20 (hiLo c).1 * 4096 + sextImm 12 (hiLo c).2) % 4294967296 = c % 4294967296 := by
+  simp only [hiLo, sext20, sext12]
+  split <;> omega
+
+/-- `li rd, c`, for every constant `c : Int`, every register number, every label table, every address
+    and every line: the expansion succeeds, the instruction objects built from it are one
+    `addi rd, x0, c` when `-2048 ≤ c ≤ 2047` and `lui rd, hi; addi rd, rd, lo` otherwise, and executing
+    them on ANY state whose `x0` is 0 raises no fault and yields the same state with `c mod 2^32`
+    written to `rd` (through the register file: a write to `x0` is dropped) — no other register, no
+    memory, no output, no counter and not the pc is changed. -/
+theorem li_value (vars : Vars) (ls : Labels) (addr : Int) (k : Nat) (line : String) (rd : Nat) (c : Int)
+    (s : St) (h0 : s.regs 0 = 0) :
+    ∃ es, expandOne vars (k, line, .grp (.li rd c)) = .ok es ∧
+      buildInstrs ls es addr = .ok (liInstrs rd c) ∧
+      liInstrs rd c = (if c > 2047 ∨ c < -2048
+        then [mkInstr .lui rd 0 0 (hiLo c).1, mkInstr .addi rd rd 0 (hiLo c).2]
+        else [mkInstr .addi rd 0 0 c]) ∧
+      runSeq (liInstrs rd c) s = { st := { s with regs := Rv.setReg s.regs rd (wrapU c) }, fault := none } :=
+  ⟨_, expandOne_li vars k line rd c, build_li ls addr k line rd c, rfl, runSeq_li rd c s h0⟩
+
+/-- The register-level reading of `li_value` for a real destination register `0 < rd < 32`: afterwards
+    `rd` holds `c mod 2^32`, every other register is unchanged. -/
+theorem li_value_regs (rd : Nat) (hrd : 0 < rd ∧ rd < 32) (c : Int) (s : St) (h0 : s.regs 0 = 0) :
+    (runSeq (liInstrs rd c) s).fault = none ∧
+    (runSeq (liInstrs rd c) s).st.regs rd = wrapU c ∧
+    (∀ r, r ≠ rd → (runSeq (liInstrs rd c) s).st.regs r = s.regs r) ∧
+    (runSeq (liInstrs rd c) s).st = { s with regs := (runSeq (liInstrs rd c) s).st.regs } := by
+  rw [runSeq_li rd c s h0]
+  exact ⟨rfl, setReg_same _ _ _ hrd, fun r hr => setReg_other _ _ _ _ hr, rfl⟩
+
+/-- Without the hypothesis on `x0` the long form still works: for `c` outside the 12-bit range the group
+    does not read any register. -/
+theorem li_value_long (rd : Nat) (c : Int) (hc : c > 2047 ∨ c < -2048) (s : St) :
+    runSeq (liInstrs rd c) s = { st := { s with regs := Rv.setReg s.regs rd (wrapU c) }, fault := none } := by
+  simp only [liInstrs, hc, if_true]
+  exact runSeq_luiAddi rd c s
+
+/-! ## 2  `la rd, name[i]` leaves the element's address -/
+
+/-- `la rd, name` / `la rd, name[i]` for a variable recorded as `(addr, size)`: the expansion is always
+    the two-instruction group for the constant `addr + size * i` (`i = 0` without index), and executing
+    it on any state leaves `(addr + size * i) mod 2^32` in `rd` and changes nothing else. -/
+theorem la_value (vars : Vars) (ls : Labels) (at_ : Int) (k : Nat) (line : String) (rd : Nat) (name : String)
+    (idx : Option Int) (addr size : Int) (hv : lookupVar vars name = some (addr, size)) (s : St) :
+    ∃ es, expandOne vars (k, line, .grp (.memPseudo "la" rd name idx)) = .ok es ∧
+      buildInstrs ls es at_ = .ok (luiAddi rd (addr + size * idx.getD 0)) ∧
+      runSeq (luiAddi rd (addr + size * idx.getD 0)) s =
+        { st := { s with regs := Rv.setReg s.regs rd (wrapU (addr + size * idx.getD 0)) }, fault := none } := by
+  refine ⟨_, expandOne_memPseudo vars k line "la" rd name idx addr size hv, ?_, runSeq_luiAddi rd _ s⟩
+  simp only [if_true, List.append_nil]
+  exact build_luiAddi ls at_ k line rd _
+
+/-- A name that is not in the variable table is rejected (`ParserVariableException` with the line). -/
+theorem la_unknown (vars : Vars) (k : Nat) (line : String) (mn : String) (rd : Nat) (name : String)
+    (idx : Option Int) (hv : lookupVar vars name = none) :
+    expandOne vars (k, line, .grp (.memPseudo mn rd name idx)) = .error (.parser "ParserVariableException" k line) :=
+  expandOne_memPseudo_unknown vars k line mn rd name idx hv
+
+/-! ## 3  loads and stores by variable name -/
+
+/-- `op rd, name[i]` for a load mnemonic `op ∈ {lb, lh, lw, lbu, lhu}` and `0 < rd < 32`: the expansion is
+    `lui rd, hi; addi rd, rd, lo; op rd, 0(rd)`, and executing it performs ONE counted read of the access
+    width at the element's address `a = (addr + size*i) mod 2^32`; on success `rd` receives the loaded
+    value (sign- or zero-extended as the plain load does) and only the memory system's own bookkeeping
+    and the cycle penalty change besides; on a memory fault `rd` is left holding the address. -/
+theorem load_by_name (vars : Vars) (ls : Labels) (at_ : Int) (k : Nat) (line : String) (mn : String) (op : Op)
+    (hop : Op.ofMnemonic mn = some op) (hty : op.ty = .memI) (rd : Nat) (hrd : 0 < rd ∧ rd < 32)
+    (name : String) (idx : Option Int) (addr size : Int) (hv : lookupVar vars name = some (addr, size)) (s : St) :
+    ∃ es, expandOne vars (k, line, .grp (.memPseudo mn rd name idx)) = .ok es ∧
+      buildInstrs ls es at_ = .ok (luiAddi rd (addr + size * idx.getD 0) ++ [mkInstr op rd rd 0 0]) ∧
+      runSeq (luiAddi rd (addr + size * idx.getD 0) ++ [mkInstr op rd rd 0 0]) s =
+        (let a := wrapU (addr + size * idx.getD 0)
+         let o := s.mem.read (accessBits op) (a : Nat) true
+         match o.res with
+         | .error e =>
+           { st := { s with regs := Rv.setReg s.regs rd a, mem := o.mem, cycles := s.cycles + o.extra },
+             fault := some (.mem e) }
+         | .ok v =>
+           { st := { s with regs := Rv.setReg s.regs rd (loadExt op v), mem := o.mem, cycles := s.cycles + o.extra },
+             fault := none }) := by
+  have hne : mn ≠ "la" := by
+    intro e; subst e
+    have hn : Op.ofMnemonic "la" = none := by decide
+    rw [hn] at hop; cases hop
+  refine ⟨_, expandOne_memPseudo vars k line mn rd name idx addr size hv, ?_,
+    runSeq_loadByName_explicit op hty rd hrd _ s⟩
+  simp only [if_neg hne]
+  exact build_luiAddi_load ls at_ k line rd _ mn op hop hty
+
+/-- The same as a reduction: the group behaves exactly like the plain load `op rd, 0(rd)` executed in the
+    state in which `rd` already holds the element's address (any `rd`). -/
+theorem load_by_name_reduces (op : Op) (rd : Nat) (a : Int) (s : St) :
+    runSeq (luiAddi rd a ++ [mkInstr op rd rd 0 0]) s =
+      behavior (mkInstr op rd rd 0 0) (s.setReg rd (wrapU a)) :=
+  runSeq_loadByName op rd a s
+
+/-- `op rs, name[i], rt` for a store mnemonic `op ∈ {sb, sh, sw}` and `0 < rt < 32`: the expansion is
+    `lui rt, hi; addi rt, rt, lo; op rs, 0(rt)`; executing it leaves the element's address
+    `a = (addr + size*i) mod 2^32` in `rt` and stores the low bits of `rs` at `a` — except that when
+    `rs = rt` the value stored is the ADDRESS `a` itself (the register was overwritten first). -/
+theorem store_by_name (vars : Vars) (ls : Labels) (at_ : Int) (k : Nat) (line : String) (mn : String) (op : Op)
+    (hop : Op.ofMnemonic mn = some op) (hty : op.ty = .s) (rs rt : Nat) (hrt : 0 < rt ∧ rt < 32)
+    (name : String) (idx : Option Int) (addr size : Int) (hv : lookupVar vars name = some (addr, size)) (s : St) :
+    ∃ es, expandOne vars (k, line, .grp (.sPseudo mn rs name idx rt)) = .ok es ∧
+      buildInstrs ls es at_ = .ok (luiAddi rt (addr + size * idx.getD 0) ++ [mkInstr op 0 rt rs 0]) ∧
+      runSeq (luiAddi rt (addr + size * idx.getD 0) ++ [mkInstr op 0 rt rs 0]) s =
+        (let a := wrapU (addr + size * idx.getD 0)
+         let data := if rs = rt then a else s.regs rs
+         let o := s.mem.write (accessBits op) (a : Nat) (data % 2 ^ accessBits op) false
+         let s1 : St := { s with regs := Rv.setReg s.regs rt a, mem := o.mem, cycles := s.cycles + o.extra }
+         match o.res with
+         | .error e => { st := s1, fault := some (.mem e) }
+         | .ok _ => { st := s1, fault := none }) :=
+  ⟨_, expandOne_sPseudo vars k line mn rs name idx rt addr size hv,
+    build_luiAddi_store ls at_ k line rs rt _ mn op hop hty,
+    runSeq_storeByName_explicit op hty rs rt hrt _ s⟩
+
+/-! ## 4  layout of the data segment -/
+
+/-- The data pass succeeds on every well-formed segment and produces exactly the specified variable
+    table and final counter; the memory stays a flat RISC-V memory. -/
+theorem layout_ok (es : List Entry) (h : DataOk es) :
+    ∃ m', writeData es dataInit =
+      { mem := .flat m', vars := layoutVars (itemsOf es) 16384, ctr := layoutEnd (itemsOf es) 16384, err := none } ∧
+      m'.cfg = Mem.riscvCfg := by
+  obtain ⟨m', hw, hc, _⟩ := data_final es h
+  exact ⟨m', hw, hc⟩
+
+/-- Conversely, "processed without error" gives the hypotheses: if the data pass from the initial state
+    reports no error then every entry is a declaration without in-line label and the names are pairwise
+    distinct; with non-negative `.zero` counts (the grammar only produces digit strings) and a segment
+    that ends below 2^32 this is `DataOk`, so all layout theorems below apply to every declaration list
+    processed without error. -/
+theorem layout_of_no_error (es : List Entry) (h : (writeData es dataInit).err = none) (hz : zerosNonneg es)
+    (hfit : layoutEnd (itemsOf es) 16384 ≤ 4294967296) : DataOk es :=
+  dataOk_of_no_error es h hz hfit
+
+/-- Error cases of the data pass (at any point of the pass, `o` being its state): an entry with an
+    in-line label or that is not a declaration stops the pass with `ParserDataSyntaxException`; a
+    declaration whose name is already in the table stops it with `ParserDataDuplicateException`;
+    nothing else of the state changes. -/
+theorem data_errors (k : Nat) (line : String) (t : Tok) (rest : List Entry) (o : DataOut) :
+    (t.lbl.isSome = true ∨ isDeclKind t.item = false →
+      writeData ((k, line, t) :: rest) o = { o with err := some (.parser "ParserDataSyntaxException" k line) }) ∧
+    (t.lbl = none → isDeclKind t.item = true → (lookupVar o.vars (declName t.item)).isSome = true →
+      writeData ((k, line, t) :: rest) o = { o with err := some (.parser "ParserDataDuplicateException" k line) }) :=
+  ⟨writeData_cons_bad k line t rest o, writeData_cons_dup k line t rest o⟩
+
+/-- Addresses: variable 0 starts at the first data address 16384, variable `k+1` at the next multiple
+    of 4 at or after the end of variable `k`, and every variable starts on a 4-byte boundary. -/
+theorem layout_addresses (items : List Item) :
+    addrOf items 16384 0 = 16384 ∧
+    (∀ k (hk : k + 1 < items.length),
+      addrOf items 16384 (k + 1) = align4 (addrOf items 16384 k + declLen (items[k]'(by omega)))) ∧
+    (∀ k, addrOf items 16384 k % 4 = 0) :=
+  ⟨by rw [addrOf_zero]; decide, fun k hk => addrOf_succ items 16384 k hk, fun k => addrOf_aligned items 16384 k⟩
+
+/-- `align4` rounds up to the next multiple of 4 (by less than 4). -/
+theorem align4_spec (a : Int) : a ≤ align4 a ∧ align4 a < a + 4 ∧ align4 a % 4 = 0 :=
+  ArchSim.Lemmas.C05.align4_spec a
+
+/-- Sizes: a `.byte/.half/.word` declaration occupies 1/2/4 bytes per value, a string its characters
+    plus one, `.zero n` occupies `4n` bytes; the recorded element size is 1/2/4, 1 for strings and 4
+    for `.zero`. -/
+theorem layout_sizes (n : String) (vals : List Int) (body : List Char) (c : Int) :
+    declLen (.varDecl n "byte" vals) = vals.length ∧ declSize (.varDecl n "byte" vals) = 1 ∧
+    declLen (.varDecl n "half" vals) = 2 * vals.length ∧ declSize (.varDecl n "half" vals) = 2 ∧
+    declLen (.varDecl n "word" vals) = 4 * vals.length ∧ declSize (.varDecl n "word" vals) = 4 ∧
+    declLen (.strDecl n body) = body.length + 1 ∧ declSize (.strDecl n body) = 1 ∧
+    declLen (.zeroDecl n c) = 4 * c ∧ declSize (.zeroDecl n c) = 4 := by
+  have e1 : tyBits "byte" = 8 := by decide
+  have e2 : tyBits "half" = 16 := by decide
+  have e3 : tyBits "word" = 32 := by decide
+  simp only [declLen, declSize, e1, e2, e3]
+  and_intros <;> first | rfl | trivial | omega
+
+/-- The variable table lists the declarations in order: entry `k` is `(name_k, a_k, element size_k)`. -/
+theorem layout_table (es : List Entry) (h : DataOk es) (k : Nat) (hk : k < (itemsOf es).length) :
+    ((writeData es dataInit).vars)[k]? =
+      some (declName (itemsOf es)[k], addrOf (itemsOf es) 16384 k, declSize (itemsOf es)[k]) := by
+  obtain ⟨m', hw, _⟩ := data_final es h
+  rw [hw]
+  simp only
+  rw [List.getElem?_eq_getElem (by rw [layoutVars_length]; exact hk), layoutVars_get _ _ k hk]
+
+/-- Resolution of `name[i]`: looking up the name of declaration `k` gives `(a_k, size_k)`, so that `la`,
+    load and store pseudo-instructions referring to `name_k[i]` are expanded (see `la_value`,
+    `load_by_name`, `store_by_name`) for the address `a_k + size_k * i`; for `.zero` that is
+    `a_k + 4 i`. -/
+theorem var_addr (es : List Entry) (h : DataOk es) (k : Nat) (hk : k < (itemsOf es).length)
+    (kk : Nat) (line : String) (rd : Nat) (i : Int) :
+    lookupVar (writeData es dataInit).vars (declName (itemsOf es)[k]) =
+      some (addrOf (itemsOf es) 16384 k, declSize (itemsOf es)[k]) ∧
+    expandOne (writeData es dataInit).vars (kk, line, .grp (.memPseudo "la" rd (declName (itemsOf es)[k]) (some i))) =
+      .ok (luiAddiEntries kk line rd (addrOf (itemsOf es) 16384 k + declSize (itemsOf es)[k] * i)) := by
+  obtain ⟨m', hw, _⟩ := data_final es h
+  have hl := lookupVar_layoutVars (itemsOf es) 16384 h.names k hk
+  rw [hw]
+  refine ⟨hl, ?_⟩
+  rw [expandOne_memPseudo _ kk line "la" rd _ (some i) _ _ hl]
+  simp
+
+/-- Element `i` of a `.byte` / `.half` / `.word` declaration (declaration `k`, at `a_k`) reads back, with
+    the accessor of the element width at `a_k + i * size`, as `value mod 2^(8*size)`: elements are stored
+    at 1/2/4-byte strides, reduced modulo the element width. -/
+theorem layout_elements (es : List Entry) (h : DataOk es) (m' : Mem.Mem)
+    (hm : (writeData es dataInit).mem = .flat m') (k : Nat) (hk : k < (itemsOf es).length)
+    (n ty : String) (vals : List Int) (hit : (itemsOf es)[k] = .varDecl n ty vals) (i : Nat) (hi : i < vals.length) :
+    Mem.read m' (tyBits ty) (addrOf (itemsOf es) 16384 k + (i : Int) * ((tyBits ty / 8 : Nat) : Int)) =
+      some (.ok ((vals[i] % (2 : Int) ^ tyBits ty).toNat)) := by
+  obtain ⟨m1, hw, hc, _, _, hl⟩ := data_final es h
+  rw [hw] at hm; simp only [MemSys.flat.injEq] at hm; subst hm
+  have hd := LaidOut_get m1 _ _ hl k hk
+  have hlo := (addrOf_bounds (itemsOf es) 16384 h.decls k hk).1
+  have hhi := addrOf_end (itemsOf es) 16384 h.decls k hk
+  have hfit := h.fit
+  rw [hit] at hd hhi
+  exact DeclAt_read_elem m1 hc n ty vals _ hlo (by omega) hd i hi
+
+/-- … and the bytes of each element are little-endian: byte `j` of element `i` is
+    `(value mod 2^(8*size)) / 256^j mod 256`. -/
+theorem layout_elements_little_endian (es : List Entry) (h : DataOk es) (m' : Mem.Mem)
+    (hm : (writeData es dataInit).mem = .flat m') (k : Nat) (hk : k < (itemsOf es).length)
+    (n ty : String) (vals : List Int) (hit : (itemsOf es)[k] = .varDecl n ty vals) (i : Nat) (hi : i < vals.length)
+    (j : Nat) (hj : j < tyBits ty / 8) :
+    Mem.read m' 8 (addrOf (itemsOf es) 16384 k + (i : Int) * ((tyBits ty / 8 : Nat) : Int) + (j : Int)) =
+      some (.ok ((vals[i] % (2 : Int) ^ tyBits ty).toNat / 2 ^ (8 * j) % 256)) := by
+  obtain ⟨m1, hw, hc, _, _, hl⟩ := data_final es h
+  rw [hw] at hm; simp only [MemSys.flat.injEq] at hm; subst hm
+  have hd := LaidOut_get m1 _ _ hl k hk
+  have hlo := (addrOf_bounds (itemsOf es) 16384 h.decls k hk).1
+  have hhi := addrOf_end (itemsOf es) 16384 h.decls k hk
+  have hfit := h.fit
+  rw [hit] at hd hhi
+  exact DeclAt_read_elem_byte m1 hc n ty vals _ hlo (by omega) hd i hi j hj
+
+/-- A string (declaration `k`) reads back byte by byte as its characters' code points modulo 256,
+    followed by a terminating zero byte. -/
+theorem layout_string (es : List Entry) (h : DataOk es) (m' : Mem.Mem)
+    (hm : (writeData es dataInit).mem = .flat m') (k : Nat) (hk : k < (itemsOf es).length)
+    (n : String) (body : List Char) (hit : (itemsOf es)[k] = .strDecl n body) :
+    (∀ (i : Nat) (hi : i < body.length),
+      Mem.read m' 8 (addrOf (itemsOf es) 16384 k + (i : Int)) = some (.ok (body[i].toNat % 256))) ∧
+    Mem.read m' 8 (addrOf (itemsOf es) 16384 k + (body.length : Int)) = some (.ok 0) := by
+  obtain ⟨m1, hw, hc, _, _, hl⟩ := data_final es h
+  rw [hw] at hm; simp only [MemSys.flat.injEq] at hm; subst hm
+  have hd := LaidOut_get m1 _ _ hl k hk
+  have hlo := (addrOf_bounds (itemsOf es) 16384 h.decls k hk).1
+  have hhi := addrOf_end (itemsOf es) 16384 h.decls k hk
+  have hfit := h.fit
+  rw [hit] at hd hhi
+  exact DeclAt_read_string m1 hc n body _ hlo (by omega) hd
+
+/-- `.zero c` (declaration `k`) reserves `c` words that read zero: the counter advances by `4c`, every
+    cell of the block is 0 in the final memory (no later declaration overlaps it), so word `i < c` at
+    `a_k + 4i` reads 0. -/
+theorem layout_zero (es : List Entry) (h : DataOk es) (m' : Mem.Mem)
+    (hm : (writeData es dataInit).mem = .flat m') (k : Nat) (hk : k < (itemsOf es).length)
+    (n : String) (c : Int) (hit : (itemsOf es)[k] = .zeroDecl n c) :
+    declLen (itemsOf es)[k] = 4 * c ∧
+    (∀ x, addrOf (itemsOf es) 16384 k ≤ x → x < addrOf (itemsOf es) 16384 k + 4 * c → m'.cells x = 0) ∧
+    (∀ i : Nat, (i : Int) < c → Mem.read m' 32 (addrOf (itemsOf es) 16384 k + 4 * (i : Int)) = some (.ok 0)) := by
+  obtain ⟨m1, hw, hc, _, _, hl⟩ := data_final es h
+  rw [hw] at hm; simp only [MemSys.flat.injEq] at hm; subst hm
+  have hd := LaidOut_get m1 _ _ hl k hk
+  have hlo := (addrOf_bounds (itemsOf es) 16384 h.decls k hk).1
+  have hhi := addrOf_end (itemsOf es) 16384 h.decls k hk
+  have hfit := h.fit
+  rw [hit] at hd hhi ⊢
+  simp only [declLen] at hhi
+  refine ⟨rfl, hd.1, fun i hi => ?_⟩
+  apply read_zero_cells m1 hc 32 (Or.inr (Or.inr rfl)) _ (by omega) (by simp; omega)
+  intro j hj
+  exact hd.1 _ (by omega) (by simp at hj; omega)
+
+/-- Padding: the bytes between the end of declaration `k` and the next 4-byte boundary are zero, and so
+    is everything from the final counter on and everything below 16384. -/
+theorem layout_padding (es : List Entry) (h : DataOk es) (m' : Mem.Mem)
+    (hm : (writeData es dataInit).mem = .flat m') :
+    (∀ k (hk : k < (itemsOf es).length) (x : Int),
+      addrOf (itemsOf es) 16384 k + declLen (itemsOf es)[k] ≤ x →
+      x < align4 (addrOf (itemsOf es) 16384 k + declLen (itemsOf es)[k]) → m'.cells x = 0) ∧
+    (∀ x, layoutEnd (itemsOf es) 16384 ≤ x → m'.cells x = 0) ∧ (∀ x, x < 16384 → m'.cells x = 0) := by
+  obtain ⟨m1, hw, hc, hz, hb, hl⟩ := data_final es h
+  rw [hw] at hm; simp only [MemSys.flat.injEq] at hm; subst hm
+  exact ⟨fun k hk x h1 h2 => (LaidOut_get m1 _ _ hl k hk).2 x h1 h2, hz, hb⟩
+
+/-- The hypothesis "the segment ends below 2^32" of `DataOk` is necessary: the address counter is an
+    unbounded integer while memory addresses wrap modulo 2^32, so after `z: .zero 1073741824` the next
+    variable `x: .word 7` is recorded at 16384 + 2^32, the pass reports no error, and the word is stored
+    over `z[0]` — which then reads 7, not 0. (A data segment of 4 GiB cannot occur in practice; recorded
+    as a boundary of the property, not a defect.) -/
+theorem layout_needs_fit :
+    (writeData exWrap dataInit).err = none ∧
+    (writeData exWrap dataInit).vars = [("z", 16384, 4), ("x", 4294983680, 4)] ∧
+    Mem.read (writeData exWrap dataInit).mem.backing 32 16384 = some (.ok 7) :=
+  ⟨by decide, by decide, rfl⟩
+
+/-! ## 5  The order of the segments does not matter -/
+
+/-- `.data` before `.text`: for a `.data` directive `d`, a `.text` directive `t`, and entry lists `data`,
+    `text` without directives (the line number of `t` not occurring in `data`, as line numbers are
+    distinct), `segment` returns `(data, text)`. -/
+theorem segment_data_first (d t : Entry) (data text : List Entry) (hd : isDir "data" d = true)
+    (ht : isDir "text" t = true) (hnd : noDir data) (hnt : noDir text) (hline : ∀ e ∈ data, e.1 ≠ t.1) :
+    segment ([d] ++ data ++ [t] ++ text) = .ok (data, text) := by
+  simpa using ArchSim.Lemmas.C05.segment_data_first d t data text hd ht hnd hnt hline
+
+/-- `.text` before `.data`: the same pair. -/
+theorem segment_text_first (d t : Entry) (data text : List Entry) (hd : isDir "data" d = true)
+    (ht : isDir "text" t = true) (hnd : noDir data) (hnt : noDir text) (hline : ∀ e ∈ text, e.1 ≠ d.1) :
+    segment ([t] ++ text ++ [d] ++ data) = .ok (data, text) := by
+  simpa using ArchSim.Lemmas.C05.segment_text_first d t data text hd ht hnd hnt hline
+
+/-- No `.text` directive, instructions first: the same pair (for a non-empty `text`). -/
+theorem segment_text_implicit (d : Entry) (data text : List Entry) (hd : isDir "data" d = true)
+    (hnd : noDir data) (hnt : noDir text) (hne : text ≠ []) (hline : ∀ e ∈ text, e.1 ≠ d.1) :
+    segment (text ++ [d] ++ data) = .ok (data, text) := by
+  cases text with
+  | nil => exact absurd rfl hne
+  | cons first text' =>
+    simpa using ArchSim.Lemmas.C05.segment_text_implicit d first data text' hd hnd hnt hline
+
+/-- No directive at all: everything is text, there is no data. -/
+theorem segment_no_directive (text : List Entry) (hnt : noDir text) : segment text = .ok ([], text) := by
+  cases text with
+  | nil => rfl
+  | cons first text' => exact ArchSim.Lemmas.C05.segment_no_directive first text' hnt
+
+/-- `load` looks at the token list only through the pair `segment` returns: after the reset, everything
+    it does is `loadSeg (data, text)`. Hence two sources whose token lists are segmented into the same
+    pair — in particular the three arrangements above — are loaded to the same state, memory image and
+    instruction list included. -/
+theorem segment_order_load (s : St) (t₁ t₂ : String) (toks₁ toks₂ : List Entry)
+    (h₁ : tokenize (sanitize t₁) = .ok toks₁) (h₂ : tokenize (sanitize t₂) = .ok toks₂)
+    (hs : segment toks₁ = segment toks₂) : load s t₁ = load s t₂ :=
+  load_eq_of_segment_eq s t₁ t₂ toks₁ toks₂ h₁ h₂ hs
+
+/-- Segment order does not matter for the loaded image. Take a source `t₁` whose token list is
+    `.data, data…, .text, text…` and a source `t₂` whose token list is `.text, text…, .data, data…` with
+    the same entries up to their line numbers (moving a segment renumbers its lines: `f` renumbers the
+    data lines, the injective `g` the text lines; line numbers are distinct as in every token list).
+    If loading `t₁` succeeds, loading `t₂` gives EXACTLY the same result: same memory image, same
+    instruction list, no error. (Line numbers only occur in error messages and in the matching of
+    in-line labels with their lines.) -/
+theorem segment_order_image (s : St) (t₁ t₂ : String) (d t d' t' : Entry) (data text : List Entry)
+    (f g : Nat → Nat) (hg : ∀ a b, g a = g b → a = b)
+    (hd : isDir "data" d = true) (ht : isDir "text" t = true)
+    (hd' : isDir "data" d' = true) (ht' : isDir "text" t' = true)
+    (hnd : noDir data) (hnt : noDir text)
+    (hline₁ : ∀ e ∈ data, e.1 ≠ t.1) (hline₂ : ∀ e ∈ text, g e.1 ≠ d'.1)
+    (h₁ : tokenize (sanitize t₁) = .ok ([d] ++ data ++ [t] ++ text))
+    (h₂ : tokenize (sanitize t₂) = .ok ([t'] ++ text.map (renE g) ++ [d'] ++ data.map (renE f)))
+    (hok : (load s t₁).err = none) :
+    load s t₂ = load s t₁ := by
+  have hs₁ := segment_data_first d t data text hd ht hnd hnt hline₁
+  have hnd' : noDir (data.map (renE f)) := by
+    intro e he
+    obtain ⟨e0, he0, rfl⟩ := List.mem_map.mp he
+    exact hnd e0 he0
+  have hnt' : noDir (text.map (renE g)) := by
+    intro e he
+    obtain ⟨e0, he0, rfl⟩ := List.mem_map.mp he
+    exact hnt e0 he0
+  have hs₂ := segment_text_first d' t' (data.map (renE f)) (text.map (renE g)) hd' ht' hnd' hnt' (by
+    intro e he
+    obtain ⟨e0, he0, rfl⟩ := List.mem_map.mp he
+    exact hline₂ e0 he0)
+  have e₁ : load s t₁ = loadSeg (loadReset s) data text := by
+    rw [load_factors, h₁]; simp only [hs₁]
+  have e₂ : load s t₂ = loadSeg (loadReset s) (data.map (renE f)) (text.map (renE g)) := by
+    rw [load_factors, h₂]; simp only [hs₂]
+  rw [e₁] at hok ⊢
+  rw [e₂]
+  exact loadSeg_renum f g hg (loadReset s) data text hok
+
+/-- The same for a source without `.text` directive whose instructions come first
+    (`text…, .data, data…`, `text` non-empty). -/
+theorem segment_order_image_implicit (s : St) (t₁ t₂ : String) (d t d' : Entry) (data text : List Entry)
+    (f g : Nat → Nat) (hg : ∀ a b, g a = g b → a = b)
+    (hd : isDir "data" d = true) (ht : isDir "text" t = true) (hd' : isDir "data" d' = true)
+    (hnd : noDir data) (hnt : noDir text) (hne : text ≠ [])
+    (hline₁ : ∀ e ∈ data, e.1 ≠ t.1) (hline₂ : ∀ e ∈ text, g e.1 ≠ d'.1)
+    (h₁ : tokenize (sanitize t₁) = .ok ([d] ++ data ++ [t] ++ text))
+    (h₂ : tokenize (sanitize t₂) = .ok (text.map (renE g) ++ [d'] ++ data.map (renE f)))
+    (hok : (load s t₁).err = none) :
+    load s t₂ = load s t₁ := by
+  have hs₁ := segment_data_first d t data text hd ht hnd hnt hline₁
+  have hnd' : noDir (data.map (renE f)) := by
+    intro e he
+    obtain ⟨e0, he0, rfl⟩ := List.mem_map.mp he
+    exact hnd e0 he0
+  have hnt' : noDir (text.map (renE g)) := by
+    intro e he
+    obtain ⟨e0, he0, rfl⟩ := List.mem_map.mp he
+    exact hnt e0 he0
+  have hs₂ := segment_text_implicit d' (data.map (renE f)) (text.map (renE g)) hd' hnd' hnt' (by simpa using hne) (by
+    intro e he
+    obtain ⟨e0, he0, rfl⟩ := List.mem_map.mp he
+    exact hline₂ e0 he0)
+  have e₁ : load s t₁ = loadSeg (loadReset s) data text := by
+    rw [load_factors, h₁]; simp only [hs₁]
+  have e₂ : load s t₂ = loadSeg (loadReset s) (data.map (renE f)) (text.map (renE g)) := by
+    rw [load_factors, h₂]; simp only [hs₂]
+  rw [e₁] at hok ⊢
+  rw [e₂]
+  exact loadSeg_renum f g hg (loadReset s) data text hok
+
+/-- The layout theorems apply to `load`: on a state whose data memory is the flat RISC-V memory, once the
+    source is tokenized and segmented into `(data, text)`, the memory `load` leaves — whether or not a
+    later pass reports an error — is the memory of the data pass run from `dataInit` on `data`. -/
+theorem load_memory_image (s : St) (m : Mem.Mem) (hm : s.mem = .flat m) (hc : m.cfg = Mem.riscvCfg)
+    (text : String) (toks data text' : List Entry) (ht : tokenize (sanitize text) = .ok toks)
+    (hs : segment toks = .ok (data, text')) :
+    (load s text).st.mem = (writeData data dataInit).mem := by
+  rw [load_factors, ht]
+  simp only [hs]
+  rw [loadSeg_mem, loadReset_flat s m hm hc]
+
+/-- … and the pseudo-instructions of the text segment are expanded with the data pass's variable table,
+    labels are computed on the expanded listing with the in-line labels of the text lines, and the
+    instruction memory receives the objects `buildInstrs` makes from address 0. -/
+theorem load_success (s : St) (m : Mem.Mem) (hm : s.mem = .flat m) (hc : m.cfg = Mem.riscvCfg)
+    (text : String) (toks data text' : List Entry) (ht : tokenize (sanitize text) = .ok toks)
+    (hs : segment toks = .ok (data, text')) (expanded : List TEntry) (ls : Labels) (instrs : List Instr)
+    (hd : (writeData data dataInit).err = none)
+    (he : expandAll (writeData data dataInit).vars (text'.map fun (k, line, t) => (k, line, t.item)) = .ok expanded)
+    (hl : processLabels expanded (text'.filterMap fun (k, _, t) => t.lbl.map fun l => (k, l)) [] 0 = .ok ls)
+    (hb : buildInstrs ls expanded 0 = .ok instrs) (hlen : instrs.length ≤ 4096) :
+    (load s text).err = none ∧ (load s text).st.imem.prog = instrs ∧
+    (load s text).st.mem = (writeData data dataInit).mem ∧ (load s text).st.regs = s.regs := by
+  have hinit := loadReset_flat s m hm hc
+  rw [load_factors, ht]
+  simp only [hs]
+  rw [loadSeg_ok (loadReset s) data text' expanded ls instrs (by rw [hinit]; exact hd) (by rw [hinit]; exact he)
+    hl hb hlen, hinit]
+  exact ⟨rfl, rfl, rfl, rfl⟩
+
+/-! ## Non-vacuity -/
+
+-- `li` on a fresh state: a small constant, a negative one, one whose low part is ≥ 2048, the constant
+-- 2^32 - 1 (high part 2^20, wrapped by the constructor), and a constant far outside 32 bits
+example : (runSeq (liInstrs 5 42) freshSt).st.regs 5 = 42 := by decide
+example : (runSeq (liInstrs 5 (-1)) freshSt).st.regs 5 = 4294967295 := by decide
+example : liInstrs 5 0x12345FFF = [mkInstr .lui 5 0 0 0x12346, mkInstr .addi 5 5 0 0xFFF] := by decide
+example : (runSeq (liInstrs 5 0x12345FFF) freshSt).st.regs 5 = 0x12345FFF := by decide
+example : hiLo 4294967295 = (1048576, 4095) := by decide
+example : (runSeq (liInstrs 5 4294967295) freshSt).st.regs 5 = 4294967295 := by decide
+example : (runSeq (liInstrs 5 (-123456789012345)) freshSt).st.regs 5 = wrapU (-123456789012345) := by decide
+-- the hypothesis of `li_value`
+example : freshSt.regs 0 = 0 := rfl
+
+-- a data segment with all five kinds of declaration satisfies `DataOk`; the table and the counter
+-- (byte array of 3 padded to 4; half-words; string of 3 + terminator; 2 reserved words; 2 words)
+example : DataOk exData := exData_ok
+example : (writeData exData dataInit).vars =
+    [("a", 16384, 1), ("h", 16388, 2), ("s", 16392, 1), ("z", 16396, 4), ("w", 16404, 4)] := by decide
+example : (writeData exData dataInit).ctr = 16412 ∧ (writeData exData dataInit).err = none := by decide
+example : (List.range 5).map (addrOf (itemsOf exData) 16384) = [16384, 16388, 16392, 16396, 16404] := by decide
+-- read-back: -1 as a byte, 256 as a byte, 70000 mod 2^16, '!' and the terminator, a reserved word,
+-- -2 as a word, and the low byte of the little-endian word 0x11223344
+example : Mem.read (writeData exData dataInit).mem.backing 8 16385 = some (.ok 255) := rfl
+example : Mem.read (writeData exData dataInit).mem.backing 8 16386 = some (.ok 0) := rfl
+example : Mem.read (writeData exData dataInit).mem.backing 16 16390 = some (.ok 4464) := rfl
+example : Mem.read (writeData exData dataInit).mem.backing 8 16394 = some (.ok 33) := rfl
+example : Mem.read (writeData exData dataInit).mem.backing 8 16395 = some (.ok 0) := rfl
+example : Mem.read (writeData exData dataInit).mem.backing 32 16400 = some (.ok 0) := rfl
+example : Mem.read (writeData exData dataInit).mem.backing 32 16404 = some (.ok 4294967294) := rfl
+example : Mem.read (writeData exData dataInit).mem.backing 8 16408 = some (.ok 0x44) := rfl
+-- `la x6, w[1]` with that table: the group for 16404 + 4 * 1
+example : expandOne (writeData exData dataInit).vars (9, "la x6, w[1]", .grp (.memPseudo "la" 6 "w" (some 1))) =
+    .ok (luiAddiEntries 9 "la x6, w[1]" 6 16408) := by rfl
+example : (runSeq (luiAddi 6 16408) freshSt).st.regs 6 = 16408 := by decide
+-- the segment theorems on token lists: `.data / v: .word 5 / .text / foo: la x5, v / jal x0, foo`, and the
+-- same entries with the text segment first (text lines renumbered by the injective `+ 10`, data lines by
+-- `+ 30`): both are split into the same pair up to line numbers, and the loads agree
+example : segment ([exDDir 1] ++ exSegData ++ [exTDir 3] ++ exSegText) = .ok (exSegData, exSegText) := by rfl
+example : segment ([exTDir 1] ++ exSegText.map (renE (· + 10)) ++ [exDDir 20] ++ exSegData.map (renE (· + 30)))
+    = .ok (exSegData.map (renE (· + 30)), exSegText.map (renE (· + 10))) := by rfl
+example : noDir exSegData ∧ noDir exSegText := by
+  constructor <;> (intro e he; simp only [exSegData, exSegText, List.mem_cons, List.not_mem_nil, or_false] at he;
+                   rcases he with rfl | rfl <;> decide)
+example : ∀ a b : Nat, a + 10 = b + 10 → a = b := by omega
+-- the load of that token pair succeeds: one word of data, three instructions, `foo` = 0
+example : (loadSeg freshSt exSegData exSegText).err = none := by rfl
+example : (loadSeg freshSt exSegData exSegText).st.imem.prog =
+    [ { op := .lui, rd := 5, imm := 4 }, { op := .addi, rd := 5, rs1 := 5, imm := 0 },
+      { op := .jal, rd := 0, imm := -8, aux := 0 } ] := by rfl
+example : loadSeg freshSt (exSegData.map (renE (· + 30))) (exSegText.map (renE (· + 10))) =
+    loadSeg freshSt exSegData exSegText :=
+  loadSeg_renum _ _ (by omega) _ _ _ (by rfl)
+-- directives for the segment theorems
+example : isDir "data" (1, ".data", { lbl := none, item := .directive "data" }) = true
+    ∧ isDir "text" (5, ".text", { lbl := none, item := .directive "text" }) = true := by decide
+
 end ArchSim.Props.C05
